@@ -13,10 +13,10 @@ import (
 
 func init() {
 	register(&Property{
-		ID:      "C02",
-		NeedSSA: true,
-		Decided: "Structural necessary conditions: (sink) the destination io.Writer is written only inside the three methods of the offset-tracking wrapper, each of which adds the byte count to the offset on every path, and the bufio layer is only Reset/Flushed elsewhere, so every byte that reaches the sink is counted in the offsets the footer records; (offsets) the offset and length fields of column chunks, row groups and page locations derive from that running offset (or differences of it), and the page locations of a chunk are re-based by the data page offset in both the encoded and the copied branch; (header) the fields of each page header come from the matching accessor of the page or buffer (NumValues, NumNulls, NumRows, Encoding(), len(definitions), len(repetitions)), the uncompressed size is taken after the v1 levels are prepended and before compression, the compressed size and CRC after it, all before the header is encoded; (deferred) a buffer that holds a deferred bloom filter is rewound to its start before it is queued; (indexer) per-page index arrays stay aligned with pages (C05.indexer); (own) footer structs do not share storage with live writer state (C17.own); (reset) dictionaries, indexers and column writers start every row group from a clean state (C17.reset instances).",
-		NotDecided: "agreement with an independent decoder; thrift encoding; sizes and counts as numbers; row-boundary alignment of pages written through the column-oriented re-encode path (see C11.rows).",
+		ID:          "C02",
+		NeedSSA:     true,
+		Decided:     "Structural necessary conditions: (sink) the destination io.Writer is written only inside the three methods of the offset-tracking wrapper, each of which adds the byte count to the offset on every path, and the bufio layer is only Reset/Flushed elsewhere, so every byte that reaches the sink is counted in the offsets the footer records; (offsets) the offset and length fields of column chunks, row groups and page locations derive from that running offset (or differences of it), and the page locations of a chunk are re-based by the data page offset in both the encoded and the copied branch; (header) the fields of each page header come from the matching accessor of the page or buffer (NumValues, NumNulls, NumRows, Encoding(), len(definitions), len(repetitions)), the uncompressed size is taken after the v1 levels are prepended and before compression, the compressed size and CRC after it, all before the header is encoded; (deferred) a buffer that holds a deferred bloom filter is rewound to its start before it is queued; (indexer) per-page index arrays stay aligned with pages (C05.indexer); (own) footer structs do not share storage with live writer state (C17.own); (reset) dictionaries, indexers and column writers start every row group from a clean state (C17.reset instances). (offsets, cont.) the offset added to the page locations of a chunk is the very measurement stored as DataPageOffset, in writeRowGroup and the helpers it calls.",
+		NotDecided:  "agreement with an independent decoder; thrift encoding; sizes and counts as numbers; row-boundary alignment of pages written through the column-oriented re-encode path (see C11.rows).",
 		Assumptions: []string{"the footer records what the struct fields hold; the thrift encoder serialises them faithfully"},
 		Run:         runC02,
 	})
@@ -127,58 +127,72 @@ func c02Offsets(c *Ctx) {
 	// reading of the file offset
 	p := c.P
 	if obj := p.LookupFunc(wr); obj != nil {
-		fn := p.SSAFunc(obj)
+		// writeRowGroup and the helpers it calls (the copy branch may live in one)
+		scope := []*ssa.Function{p.SSAFunc(obj)}
+		seenFn := map[*ssa.Function]bool{scope[0]: true}
+		for i := 0; i < len(scope) && i < 64; i++ {
+			allCalls(scope[i], true, func(_ *ssa.Function, call ssa.CallInstruction) {
+				if sc := call.Common().StaticCallee(); sc != nil && inModule(sc) && sc.Blocks != nil && fnPkg(sc) == fnPkg(scope[0]) && !seenFn[sc] && len(scope) < 64 {
+					seenFn[sc] = true
+					scope = append(scope, sc)
+				}
+			})
+		}
 		locOff := p.LookupField("format.PageLocation", "Offset")
 		dpo := p.LookupField("format.ColumnMetaData", "DataPageOffset")
 		if c.Anchor(rule, "format.PageLocation.Offset", locOff != nil) && c.Anchor(rule, "format.ColumnMetaData.DataPageOffset", dpo != nil) {
-			measured := map[ssa.Value]bool{} // the loads stored into DataPageOffset
 			type rebase struct {
 				st   *ssa.Store
 				with []ssa.Value
 			}
-			var rebases []rebase
-			allInstrs(fn, false, func(_ *ssa.Function, ins ssa.Instruction) {
-				st, ok := ins.(*ssa.Store)
-				if !ok {
-					return
-				}
-				fs, _, _ := fieldChain(st.Addr)
-				if len(fs) == 0 {
-					return
-				}
-				switch fs[len(fs)-1] {
-				case dpo:
-					for _, o := range Origins(st.Val, OriginOpts{}) {
-						if o.Kind == OrgField {
-							measured[o.Val] = true
-						}
-					}
-				case locOff:
-					b, ok := st.Val.(*ssa.BinOp)
-					if !ok || b.Op != token.ADD {
+			nreb := 0
+			for _, fn := range scope {
+				measured := map[ssa.Value]bool{} // the loads stored into DataPageOffset
+				var rebases []rebase
+				allInstrs(fn, false, func(_ *ssa.Function, ins ssa.Instruction) {
+					st, ok := ins.(*ssa.Store)
+					if !ok {
 						return
 					}
-					var with []ssa.Value
-					for _, side := range []ssa.Value{b.X, b.Y} {
-						for _, o := range Origins(side, OriginOpts{}) {
-							if o.Kind == OrgField && o.Field != locOff {
-								with = append(with, o.Val)
+					fs, _, _ := fieldChain(st.Addr)
+					if len(fs) == 0 {
+						return
+					}
+					switch fs[len(fs)-1] {
+					case dpo:
+						for _, o := range Origins(st.Val, OriginOpts{}) {
+							if o.Kind == OrgField {
+								measured[o.Val] = true
 							}
 						}
+					case locOff:
+						b, ok := st.Val.(*ssa.BinOp)
+						if !ok || b.Op != token.ADD {
+							return
+						}
+						var with []ssa.Value
+						for _, side := range []ssa.Value{b.X, b.Y} {
+							for _, o := range Origins(side, OriginOpts{}) {
+								if o.Kind == OrgField && o.Field != locOff {
+									with = append(with, o.Val)
+								}
+							}
+						}
+						rebases = append(rebases, rebase{st, with})
 					}
-					rebases = append(rebases, rebase{st, with})
-				}
-			})
-			for i, rb := range rebases {
-				ok := len(rb.with) > 0
-				for _, v := range rb.with {
-					if !measured[v] {
-						ok = false
+				})
+				for i, rb := range rebases {
+					ok := len(rb.with) > 0
+					for _, v := range rb.with {
+						if !measured[v] {
+							ok = false
+						}
 					}
+					nreb++
+					c.Check(rule, FuncKey(fn)+": page locations rebased with the recorded DataPageOffset #"+itoa(i), rb.st.Pos(), ok, "the offset added to the page locations of the chunk is not the measurement stored as DataPageOffset (it is read from the file offset at another moment, e.g. before the dictionary page is written): the offset index of the chunk points "+"into the dictionary page and seeking in the written file fails")
 				}
-				c.Check(rule, wr+": page locations rebased with the recorded DataPageOffset #"+itoa(i), rb.st.Pos(), ok, "the offset added to the page locations of the chunk is not the measurement stored as DataPageOffset (it is read from the file offset at another moment, e.g. before the dictionary page is written): the offset index of the chunk points "+"into the dictionary page and seeking in the written file fails")
 			}
-			c.Check(rule, wr+": page location rebases found", fn.Pos(), len(rebases) >= 2, "fewer page-location rebases than on the pinned tree (rule out of date)")
+			c.Check(rule, wr+": page location rebases found", scope[0].Pos(), nreb >= 2, "fewer page-location rebases than on the pinned tree (rule out of date)")
 		}
 	}
 	c.Min(rule, 12)
